@@ -46,10 +46,16 @@ def same15(a, b):
     if '%.15g' % float(a) == '%.15g' % float(b): return True
     return abs(a - b) <= Fraction(6, 10 ** 15) * max(abs(a), abs(b))
 
+def same_beh(a, b):
+    """derived quantities (computed from the 15-digit parameters): agreement to 9 digits"""
+    if a is None or b is None: return a is None and b is None
+    return abs(a - b) <= Fraction(1, 10 ** 9) * max(abs(a), abs(b)) or abs(a - b) <= Fraction(1, 10 ** 12)
+
 def diffs(schema, a, b, conv_a, conv_b, eq, path=''):
     """list of (path, a, b) where the two trees differ"""
     if schema == 'd':
         x, y = conv_a(a), conv_b(b)
+        if '~' in path and eq is same15: eq = same_beh
         return [] if eq(x, y) else [(path, None if x is None else float(x), None if y is None else float(y))]
     if schema in ('i', 'b'):
         return [] if a == b else [(path, a, b)]
@@ -106,6 +112,7 @@ def files_equiv(a, b):
         if x[1] != y[1]: return 'line %d: comment %r vs %r' % (k + 1, x[1], y[1])
         if len(x[0]) != len(y[0]): return 'line %d: %d words vs %d' % (k + 1, len(x[0]), len(y[0]))
         for u, v in zip(x[0], y[0]):
+            if u[0] == 'n' and v[0] == 'n' and close_model(u[1], v[1]): continue       # values recomputed by the reader: last digits
             if u != v: return 'line %d: %r vs %r' % (k + 1, u[1] if u[0] == 'w' else float(u[1]), v[1] if v[0] == 'w' else float(v[1]))
     return None
 
@@ -137,7 +144,7 @@ def gdbl(rng, na=False, pos=False, mag=True):
     else: v = Fraction(rng.choice([0, 1] if not pos else [1, 2]))
     if pos and v <= 0: v = Fraction(1)
     return v
-def D(v): return dy(v)
+def D(v): return [] if v is None else dy(Fraction(float(v)))
 def gname(rng, k=None):
     base = rng.choice(['z', 'var', 'Zn', 'x_a', 'Pb', 'a.b', 'v-1', 'N', 'na', 'A1'])
     return base + (str(k) if k is not None else str(rng.randint(0, 99)))
@@ -166,7 +173,7 @@ def gen_moving(rng, quick):
         if rng.random() < .5 and ndim >= 2:
             angles = [D(Fraction(rng.choice([30, 45, 10, 90, 123, -20]))) for _ in range(rng.choice([1, ndim]))]; tag = 'rotated'
             if rng.random() < .15: angles = [D(Fraction(0)) for _ in angles]
-    nsect = rng.choice([1, 1, 1, 4, 8, 0, 2])
+    nsect = 1 if ndim == 1 else rng.choice([1, 1, 1, 4, 8, 2])      # valid configurations: sectors need 2 dimensions
     dc = [] if rng.random() < .8 else D(Fraction(rng.choice([1, 3, 7]), 8))
     return [a, rng.choice([5, 10, 100, 0]), D(radius), rng.choice([1, 2, 0]), nsect, rng.choice([0, 2, 3]), coeffs, angles, dc], tag
 def gen_table(rng, quick):
@@ -204,11 +211,157 @@ def gen_hermite(rng, quick):
         n = rng.choice([1, 2, 3, 8, 30])
         psi = [D(gdbl(rng, mag=False)) for _ in range(n)]
         b = [D(gdbl(rng, na=True, mag=False)) for _ in range(8)] if rng.random() < .7 else []
-        force = rng.random() < .2
-        return [0, rng.random() < .5, D(Fraction(rng.choice([8, 7, 4, 1]), 8)), psi, b,
-                D(gdbl(rng, mag=False)) if force else [], D(gdbl(rng, pos=True, mag=False)) if force else [], 0], 'coeffs'
+        r = Fraction(rng.choice([8, 8, 8, 7, 4, 1, 12]), 8)
+        return [0, rng.random() < .5, D(r), psi, b, [], [], 0], 'coeffs-point' if r >= 1 else 'coeffs-block'
     n = rng.choice([20, 50, 200]); data = [D(Fraction(math.exp(rng.gauss(0, 1)))) for _ in range(n)]
-    return [1, rng.random() < .5, D(Fraction(rng.choice([7, 5]), 8)) if rng.random() < .4 else [], data, [], [], [], rng.choice([3, 10, 30])], 'fitted'
+    blk = rng.random() < .4
+    return [1, rng.random() < .5, D(Fraction(rng.choice([7, 5]), 8)) if blk else [], data, [], [], [], rng.choice([3, 10, 30])], 'fitted-block' if blk else 'fitted-point'
+
+
+# ---- Db / DbGrid
+LOCN = ['x', 'z', 'v', 'f', 'g', 'lower', 'upper', 'p', 'w', 'code', 'sel', 'dom', 'dblk', 'adir', 'adip', 'size', 'bu', 'bd', 'time', 'layer',
+        'nostat', 'tangent', 'ncsimu', 'facies', 'gausfac', 'date', 'rklow', 'rkup', 'sum']
+UNIQ = {8, 9, 10, 11, 13, 14, 15, 16, 17, 19, 25}
+def g_cols(rng, nech, quick, special=None, used=()):
+    """columns with a valid locator assignment (contiguous indices per type), in any column order"""
+    ncol = rng.choice([0, 1, 2, 3, 4, 6] + ([] if quick else [12, 30]))
+    locs = []
+    counts = {}
+    for _ in range(ncol):
+        r = rng.random()
+        if r < .35: t = -1
+        elif r < .7: t = rng.choice([0, 1, 1, 2, 3])
+        elif r < .9: t = rng.choice([4, 5, 6, 7, 12, 18, 20, 21, 22, 26, 27, 28] + sorted(UNIQ))
+        else: t = rng.choice([23, 24])
+        if t in UNIQ and counts.get(t, 0): t = -1
+        if t in used: t = -1
+        if t >= 0: counts[t] = counts.get(t, 0) + 1
+        locs.append(t)
+    # indices: a permutation of 0..k-1 inside each type
+    idx = {}
+    for t, k in counts.items():
+        perm = list(range(k))
+        if rng.random() < .4: rng.shuffle(perm)
+        idx[t] = perm
+    cols = []; names = set()
+    for j, t in enumerate(locs):
+        nm = gname(rng, j)
+        if special == 'provisional' and rng.random() < .5: nm = 'New-%d' % rng.randint(1, ncol + 2)
+        while nm in names: nm += 'b'
+        names.add(nm)
+        cols.append([S(nm), t, idx[t].pop(0) if t >= 0 else 0, [D(gdbl(rng, na=True)) for _ in range(nech)]])
+    tags = set()
+    if any(t in (23, 24) for t in locs): tags.add('facies-locator')
+    return cols, tags
+def gen_db(rng, quick):
+    nech = rng.choice([0, 1, 2, 5, 20] + ([] if quick else [300]))
+    special = rng.choice([None, None, None, None, 'provisional', 'blank', 'hash', 'NA-name'])
+    cols, tags = g_cols(rng, nech, quick, special)
+    if special == 'blank' and cols: cols[rng.randrange(len(cols))][0] = S('Zn ppm'); tags.add('name-with-blank')
+    if special == 'hash' and cols: cols[rng.randrange(len(cols))][0] = S('#1'); tags.add('name-starting-with-hash')
+    if special == 'NA-name' and cols: cols[rng.randrange(len(cols))][0] = S('NA')
+    if special == 'provisional': tags.add('provisional')
+    return [nech, rng.random() < .5, cols], '+'.join(sorted(tags)) or 'plain'
+def gen_dbgrid(rng, quick):
+    ndim = rng.choice([1, 2, 2, 3])
+    nx = [rng.choice([1, 2, 3, 4]) for _ in range(ndim)]
+    nech = 1
+    for k in nx: nech *= k
+    dx = [D(gdbl(rng, pos=True, mag=False)) for _ in range(ndim)]
+    x0 = [D(gdbl(rng, mag=rng.random() < .2)) for _ in range(ndim)]
+    if ndim == 1 or rng.random() < .5: angles = [D(Fraction(0))] * ndim; tag = 'unrotated'
+    elif ndim == 2: angles = [D(Fraction(rng.choice([30, 45, 12.5, -60, 90]))), D(Fraction(0))]; tag = 'rotated'
+    else: angles = [D(Fraction(rng.choice([30, 45, 10]))), D(Fraction(rng.choice([0, 20]))), D(Fraction(rng.choice([0, 5])))]; tag = 'rotated'
+    addcoor = rng.random() < .7
+    cols, tags = g_cols(rng, nech, True, None, used=(0,) if addcoor else ())
+    return [nx, dx, x0, angles, rng.random() < .5, addcoor, cols], tag + ''.join('+' + t for t in sorted(tags))
+
+# ---- Vario
+def gen_vario(rng, quick):
+    ndim = rng.choice([1, 2, 2, 3]); nvar = rng.choice([1, 1, 2, 3])
+    calcul = rng.choice([0, 0, 0, 0, 1, 2, 3, 9, 10])
+    if calcul in (11, 12, 13) and nvar < 2: calcul = 0
+    scale = Fraction(0)
+    dates = []
+    ongrid = ndim == 2 and rng.random() < .25
+    dirs = []
+    tags = set()
+    if ongrid:
+        nx = [rng.choice([3, 4, 5]), rng.choice([3, 4])]
+        nech = nx[0] * nx[1]
+        coords = nx
+        for g in rng.sample([[1, 0], [0, 1], [1, 1], [1, -1]], rng.choice([1, 2])):
+            dirs.append([1, rng.choice([2, 3]), [], [], [], 0, 0, [], [], [], [], [], g])
+        tags.add('grid')
+    else:
+        nech = rng.choice([5, 8, 15] + ([] if quick else [60]))
+        coords = [[D(Fraction(rng.randint(0, 40), 4)) for _ in range(nech)] for _ in range(ndim)]
+        for _ in range(rng.choice([1, 1, 2, 3])):
+            npas = rng.choice([2, 3, 5])
+            codir = []
+            if rng.random() < .6:
+                v = [rng.gauss(0, 1) for _ in range(ndim)]; n = math.sqrt(sum(x * x for x in v)) or 1.
+                codir = [D(Fraction(x / n)) for x in v]
+            bench = D(Fraction(rng.randint(1, 8), 2)) if rng.random() < .15 and ndim == 3 else []
+            cyl = D(Fraction(rng.randint(1, 8), 2)) if rng.random() < .15 and ndim >= 2 else []
+            breaks = []
+            if rng.random() < .12:
+                b = sorted(set(Fraction(rng.randint(0, 30), 4) for _ in range(npas + 1)))
+                if len(b) >= 3: breaks = [D(x) for x in b]; npas = len(b) - 1; tags.add('breaks')
+            if bench: tags.add('bench')
+            if cyl: tags.add('cylrad')
+            dirs.append([0, npas, D(Fraction(rng.randint(2, 12), 4)), D(Fraction(1, 2)), D(Fraction(rng.choice([90, 45, 22.5, 10]))), 0, 0, bench, cyl, D(Fraction(0)), breaks, codir, []])
+    vals = [[D(gdbl(rng, na=rng.random() < .3, mag=False)) for _ in range(nech)] for _ in range(nvar)]
+    nas = []
+    if rng.random() < .15: nas = [[0, rng.randint(0, 2), rng.randint(0, 2)]]; tags.add('undefined-result')
+    tags.add('calcul%d' % calcul)
+    return [ndim, nvar, calcul, D(scale), dates, nech if not ongrid else 0, coords, vals, dirs, nas], '+'.join(sorted(tags))
+
+# ---- Model
+COV_RANGE = [1, 2, 3, 4, 5, 9, 18, 24, 25, 26]      # exponential, spherical, gaussian, cubic, sincard, cauchy(param), triangle, wendland
+COV_PARAM = [7, 10, 9, 8]                               # matern, stable, cauchy, gamma
+def gen_model(rng, quick):
+    ndim = rng.choice([1, 2, 2, 3]); nvar = rng.choice([1, 1, 2, 3])
+    ncov = rng.choice([0, 1, 1, 2, 3])
+    covs = []; tags = set()
+    for _ in range(ncov):
+        r = rng.random()
+        if r < .2: t = 0
+        elif r < .75: t = rng.choice(COV_RANGE)
+        else: t = rng.choice(COV_PARAM)
+        if t == 18 and ndim > 1: t = 2
+        param = Fraction(rng.choice([1, 2, 3, 6]), 4) if t in COV_PARAM else Fraction(1)
+        if t == 10: param = Fraction(rng.choice([2, 4, 6, 8]), 4)
+        rng_ = gdbl(rng, pos=True, mag=False) + Fraction(1, 8)
+        ranges = []; angles = []
+        if t != 0 and ndim > 1 and rng.random() < .5:
+            ranges = [D(gdbl(rng, pos=True, mag=False) + Fraction(1, 8)) for _ in range(ndim)]; tags.add('aniso')
+            if rng.random() < .6:
+                angles = [D(Fraction(rng.choice([30, 45, 10, 123, -20]))), D(Fraction(0))] if ndim == 2 else [D(Fraction(rng.choice([30, 10]))), D(Fraction(rng.choice([0, 20]))), D(Fraction(rng.choice([0, 7])))]
+                tags.add('rotated')
+        # sills: symmetric, diagonally dominant
+        a = [[Fraction(rng.randint(-3, 3), 4) for _ in range(nvar)] for _ in range(nvar)]
+        sl = [[(a[i][j] + a[j][i]) / 2 if i != j else Fraction(nvar) + abs(a[i][i]) for j in range(nvar)] for i in range(nvar)]
+        covs.append([t, D(rng_), D(param), ranges, [D(x) for row in sl for x in row], angles])
+    drifts = []
+    if rng.random() < .4: drifts = [rng.choice([0, 1, 2]), rng.choice([0, 0, 1, 2])]; tags.add('drift')
+    means = [D(gdbl(rng, mag=False)) for _ in range(nvar)] if rng.random() < .5 else []
+    if means and drifts: tags.add('means+drift')
+    covar0 = [D(gdbl(rng, mag=False)) for _ in range(nvar * nvar)] if rng.random() < .3 else []
+    field = D(gdbl(rng, pos=True, mag=False)) if rng.random() < .4 else []
+    return [ndim, nvar, field, covs, drifts, means, covar0], 'ncov%d' % ncov + ''.join('+' + t for t in sorted(tags))
+
+LC = ('L', 'i')      # locator: () or (type index) -- compared as a list of ints
+DB = T(('nech', 'i'), ('names', Lst('s')), ('locators', Lst(LC)), ('values', Lst(Lst('d'))))
+XDB = T(('ndim', 'i'), ('nactive', 'i'), ('nz', 'i'), ('nx', 'i'))
+DBGRID = T(('grid', Lst(T(('nx', 'i'), ('x0', 'd'), ('dx', 'd'), ('angle', 'd')))), ('db', DB))
+VDIR = T(('flagRegular', 'b'), ('npas', 'i'), ('optionCode', 'i'), ('tolCode', 'd'), ('dpas', 'd'), ('tolDist', 'd'), ('grincr', Lst('i')),
+         ('tolAngle', 'd'), ('codir', Lst('d')), ('results', Lst(T(('sw', 'd'), ('hh', 'd'), ('gg', 'd')))))
+VARIO = T(('ndim', 'i'), ('nvar', 'i'), ('scale', 'd'), ('flagAsym', 'b'), ('variableNames', Lst('s')), ('vars', Lst(Lst('d'))), ('dirs', Lst(VDIR)))
+XVARIO = T(('calcul', 'i'), ('dates', Lst('d')), ('dirs', Lst(T(('bench', 'd'), ('cylRad', 'd'), ('idate', 'i'), ('breaks', Lst('d'))))))
+COVA = T(('type', 'i'), ('param', 'd'), ('ranges', Lst('d')), ('rotMat', Lst('d')), ('sill', Lst(Lst('d'))))
+MODEL = T(('ndim', 'i'), ('nvar', 'i'), ('field', 'd'), ('covs', Lst(COVA)), ('drifts', Lst('s')), ('means', Lst('d')), ('covar0', Lst(Lst('d'))))
+XMODEL = T(('~value', Lst('d')), ('~angles', Lst(Lst('d'))))
 
 HERMITE = T(('azmin', 'd'), ('azmax', 'd'), ('aymin', 'd'), ('aymax', 'd'), ('pzmin', 'd'), ('pzmax', 'd'), ('pymin', 'd'), ('pymax', 'd'),
             ('mean', 'd'), ('variance', 'd'), ('rCoef', 'd'), ('psiHn', Lst('d')))
@@ -218,14 +371,27 @@ CLASSES = [
     Cls(3, 'NeighCell', T(('base', ANEIGH), ('nmini', 'i')), T(), gen_cell),
     Cls(4, 'NeighMoving', T(('base', ANEIGH), ('nmini', 'i'), ('nmaxi', 'i'), ('nsect', 'i'), ('nsmax', 'i'), ('distCont', 'd'), ('radius', 'd'),
                             ('flagAniso', 'b'), ('flagRotation', 'b'), ('anisoCoeffs', Lst('d')), ('anisoRotMat', Lst('d'))),
-        T(('checkerNDim', 'i'), ('normalizedDistance', 'd'), ('normalizedDistance', 'd'), ('flagSector', 'b')), gen_moving),
+        T(('checkerNDim', 'i'), ('~normalizedDistance', 'd'), ('~normalizedDistance', 'd'), ('flagSector', 'b')), gen_moving),
     Cls(5, 'Table', T(('ncols', 'i'), ('nrows', 'i'), ('values', Lst(Lst('d')))), T(('rowNames', Lst('s')), ('colNames', Lst('s')), ('title', 's')), gen_table),
     Cls(6, 'PolyLine2D', PTS, T(), gen_polyline),
     Cls(7, 'PolyElem', PE, T(), gen_polyelem),
-    Cls(8, 'Polygons', Lst(PE), Lst('b'), gen_polygons),
-    Cls(9, 'AnamHermite', HERMITE, T(('flagBound', 'b'), ('rawValue', 'd'), ('rawValue', 'd'), ('rawValue', 'd'), ('rawValue', 'd')), gen_hermite),
+    Cls(8, 'Polygons', Lst(PE), T(('~inside', Lst('b'))), gen_polygons),
+    Cls(10, 'Db', DB, XDB, gen_db),
+    Cls(11, 'DbGrid', DBGRID, T(('db', XDB), ('~lastNode', Lst('d'))), gen_dbgrid),
+    Cls(12, 'Vario', VARIO, XVARIO, gen_vario),
+    Cls(13, 'Model', MODEL, XMODEL, gen_model),
+    Cls(9, 'AnamHermite', HERMITE, T(('flagBound', 'b'), ('~psiHns', Lst('d')), ('~rawValue', Lst('d'))), gen_hermite),
 ]
 BYID = {c.cid: c for c in CLASSES}
+
+def fail_key(cls, case, what):
+    """key of a dump / reload failure or crash: the option combination that explains it when there is one"""
+    if cls.name in ('Db', 'DbGrid'):
+        cols = case[2][2] if cls.name == 'Db' else case[2][6]
+        if any(' ' in US(c[0]) for c in cols): return 'Db:column-name-with-blank'
+        if any(US(c[0]).startswith('#') for c in cols): return 'Db:column-name-starting-with-hash'
+    if cls.name == 'Vario' and case[2][2] in (1, 2, 9): return 'Vario:calcul-type-not-saved'
+    return '%s:%s' % (what if what == 'crash' else cls.name, cls.name if what == 'crash' else what)
 
 # refined keys: (class, path) -> canonical key of a known asymmetry; default is '<Class>:<path>-not-preserved'
 def key_of(cls, path, a, b, case):
@@ -234,10 +400,29 @@ def key_of(cls, path, a, b, case):
         return 'ANeigh:%s-not-saved' % p.split('.')[-1]
     if cls.name == 'NeighMoving':
         if p == 'anisoCoeffs': return 'NeighMoving:aniso-coeffs-scaled-by-radius'
-        if p in ('flagRotation', 'normalizedDistance'): return 'NeighMoving:rotation-lost' if p == 'flagRotation' else None
+        if p == 'flagRotation': return 'NeighMoving:rotation-lost'
         if p == 'distCont': return 'NeighMoving:distCont-not-saved'
     if cls.name == 'NeighBench' and p == 'width': return 'NeighBench:width-getter-stale-after-reload'
     if cls.name == 'Table' and p in ('rowNames', 'colNames', 'title'): return 'Table:%s-not-saved' % p
+    if cls.name == 'AnamHermite':
+        if p == 'psiHn': return 'AnamHermite:coefficients-scaled-twice-by-support-coefficient'
+        if p == 'flagBound': return 'AnamHermite:flagBound-not-saved'
+        if p == 'variance' and case[2][2] != [] and undy(case[2][2]) < 1: return 'AnamHermite:coefficients-scaled-twice-by-support-coefficient'
+    if cls.name in ('Db', 'DbGrid'):
+        rec = case[2]; cols = rec[2] if cls.name == 'Db' else rec[6]
+        names = [US(c[0]) for c in cols]
+        if any(' ' in n for n in names): return 'Db:column-name-with-blank'
+        if any(n.startswith('#') for n in names): return 'Db:column-name-starting-with-hash'
+        if p.endswith('locators') and any(c[1] in (23, 24) for c in cols): return 'Db:locator-facies-gausfac-read-as-f-g'
+        if p.endswith('names'): return 'Db:name-collides-with-provisional-name'
+    if cls.name == 'Vario':
+        if p in ('flagAsym', 'calcul', 'dirs.results'): 
+            if case[2][2] in (1, 2, 9): return 'Vario:calcul-type-not-saved'
+        if p == 'calcul': return 'Vario:calcul-type-not-saved'
+        if p.startswith('dirs.results.'): return 'Vario:undefined-result-written-as-zero' if a is None else 'Vario:results-not-preserved'
+        if p in ('dirs.bench', 'dirs.cylRad', 'dirs.idate', 'dirs.breaks', 'dirs.flagRegular', 'dates'): return 'Vario:%s-not-saved' % p.split('.')[-1].replace('flagRegular', 'breaks')
+    if cls.name == 'Model':
+        if p == 'means' and case[2][4]: return 'Model:means-not-saved-with-drift'
     return '%s:%s-not-preserved' % (cls.name, p)
 
 # ----------------------------------------------------------------------------- main
@@ -265,6 +450,22 @@ def run(ctx):
     ctx.assumptions = ['objects are built through the public API; strings are non-empty words without blanks (other strings are exercised separately and reported)',
                        'values compared to 15 significant digits (relative 6e-15), undefined values must stay undefined']
 
+def run_impl_all(ctx, exe, name, cases, env):
+    """run the harness on all the cases; a crash costs only the crashing case (result None)"""
+    out = []; start = 0; rounds = 0
+    while start < len(cases) and rounds < 40:
+        cf = write_cases(ctx, '%s_%d' % (name, rounds), cases[start:])
+        rc, res = run_impl(ctx, exe, cf, env=env)
+        out += res
+        start += len(res)
+        if start < len(cases):
+            try: phase = open(os.path.join(env['VERIF_C08_DIR'], 'progress.txt')).read()
+            except Exception: phase = '?'
+            out.append([-990, S(phase)]); start += 1      # the harness died on this one
+        rounds += 1
+    out += [None] * (len(cases) - len(out))
+    return out
+
 def load_corpus(ctx):
     p = os.path.join(VERIF, 'corpus', ctx.pid + '.sx')
     if not os.path.exists(p): return []
@@ -282,24 +483,22 @@ def main_part(ctx, quick, rng, runner, exe, env):
             cases.append([1, cls.cid, rec]); tags.append(tag)
             ctx.dist('%s:%s' % (cls.name, tag))
     # ---- phase 1: implementation round trip
-    cf = write_cases(ctx, 'p1', cases)
-    rc, impl = run_impl(ctx, exe, cf, env=env)
-    if len(impl) != len(cases):
-        k = len(impl)
-        ctx.violation('crash:%s' % BYID[cases[k][1]].name, 'the harness stopped (crash) on case %d while saving/reloading a %s' % (k, BYID[cases[k][1]].name),
-                      {'case': sx_str(cases[k]), 'how': 'bin/check C08 then harness/C08 on this line'})
-        cases = cases[:k]; found_input = True
-    hook = any(r[10] for r in impl if len(r) > 10)
+    impl = run_impl_all(ctx, exe, 'p1', cases, env)
+    hook = any(r[10] for r in impl if r and len(r) > 10)
     if not hook: ctx.notes.append('record-trace hook (hooks/C08.patch) not present in the library: part (c) skipped')
     # ---- phase 2: the model parses impl's file; the model writes the original object
+    # oracle of the Model class: which covariance types have a range / a third parameter (asked to the library)
+    tf = write_cases(ctx, 'p0', [[5]])
+    _, tres = run_impl(ctx, exe, tf, env=env)
+    aux = tres[0] if tres else []
     mcases = []; mref = []
     for i, (c, r) in enumerate(zip(cases, impl)):
-        if len(r) < 11: continue
+        if r is None or len(r) < 11: continue
         cls = BYID[c[1]]
         if not cls.modelled: continue
         if r[0] and r[1]:
-            mcases.append([1, cls.cid, r[1]]); mref.append((i, 'parse'))
-        mcases.append([2, cls.cid, to_model(cls.G, r[3])]); mref.append((i, 'write'))
+            mcases.append([1, cls.cid, r[1], aux]); mref.append((i, 'parse'))
+        mcases.append([2, cls.cid, to_model(cls.G, r[3]), aux]); mref.append((i, 'write'))
     mf = write_cases(ctx, 'p2', mcases)
     rcm, mres = run_model(ctx, runner, mf)
     if len(mres) != len(mcases):
@@ -314,26 +513,33 @@ def main_part(ctx, quick, rng, runner, exe, env):
     for i, res in written.items():
         text = render_numbers(US(res[0]))
         rcases.append([2, cases[i][1], S(text)]); rref.append(i)
-    rf = write_cases(ctx, 'p3', rcases)
-    rc3, rres = run_impl(ctx, exe, rf, env=env)
+    rres = run_impl_all(ctx, exe, 'p3', rcases, env)
     reread = {i: r for i, r in zip(rref, rres)}
     # ---- verdicts
     ndis = 0
     uq = lambda p: unq(p)
     for i, (c, r) in enumerate(zip(cases, impl)):
         cls = BYID[c[1]]
-        if len(r) < 11:
-            ctx.violation('crash:%s' % cls.name, 'harness error on a %s' % cls.name, {'case': sx_str(c), 'result': r}); found_input = True; continue
+        if r is None or len(r) < 11:
+            k = fail_key(cls, c, 'crash')
+            phase = US(r[1]) if r and r[0] == -990 else repr(r)
+            ctx.violation(k, 'saving and reloading a %s crashes the process during: %s' % (cls.name, phase),
+                          {'class': cls.name, 'recipe': sx_str(c), 'how': 'build the object of the recipe (harness/C08.cpp, class %d), dumpToNF, createFromNF' % cls.cid})
+            found_input = True; ctx.count(sx_str(c)); continue
         okd, fileA, okl, G0, X0, G1, X1, fileB, tw, tr, hk = r
         fileA, fileB = US(fileA), US(fileB)
         ctx.count(sx_str(c)); ctx.sample({'class': cls.name, 'recipe': sx_str(c[2])[:200], 'file': fileA[:300]}, maxn=6)
         vio = []          # (key, text)
-        if not okd: vio.append(('%s:dump-fails' % cls.name, 'dumpToNF fails'))
-        elif not okl: vio.append(('%s:reload-fails' % cls.name, 'createFromNF fails on the file just written'))
+        if not okd: vio.append((fail_key(cls, c, 'dump-fails'), 'dumpToNF fails'))
+        elif not okl: vio.append((fail_key(cls, c, 'reload-fails'), 'createFromNF fails on the file just written'))
         else:
+            beh = []
             for path, a, b in diffs(cls.G, G0, G1, undy, undy, same15) + diffs(cls.X, X0, X1, undy, undy, same15):
+                text = '%s: %s is %r before saving and %r after reloading' % (cls.name, path.replace('~', ''), a, b)
+                if '~' in path: beh.append(('%s:behaviour-%s-differs' % (cls.name, path.split('~')[-1].rstrip('#')), text)); continue
                 k = key_of(cls, path, a, b, c)
-                if k: vio.append((k, '%s: %s is %r before saving and %r after reloading' % (cls.name, path, a, b)))
+                if k: vio.append((k, text))
+            if not vio: vio += beh[:1]      # a derived quantity differs although every getter agrees
             if fileB != fileA and not vio:
                 vio.append(('%s:rewrite-differs' % cls.name, 'the file written by the reloaded object differs from the first one'))
         # model predictions
@@ -372,6 +578,7 @@ def main_part(ctx, quick, rng, runner, exe, env):
                     if d: drift.append('implementation reading of the model file differs from the model reload at %s' % d[:2])
         if drift:
             ndis += 1
+            if ndis <= 5: ctx.log('disagreement model/impl on a %s (%s): %s' % (cls.name, 'property violated too' if vio else 'property holds', drift[0][:300]))
             if not vio:
                 ctx.violation('model-drift:%s' % cls.name, 'model and implementation disagree on a %s although the implementation round trip holds: %s' % (cls.name, drift[0]),
                               {'class': cls.name, 'recipe': sx_str(c), 'file': fileA, 'disagreements': drift, 'correspondence': 'coq/C08/Model*.v vs %s::_serialize/_deserialize' % cls.name},
